@@ -277,3 +277,84 @@ class DecFileNotParsed(RuntimeError):""")],
 """), (DEC, "class DecFileNotParsed(RuntimeError):", "_LARK_CACHE: dict = {}\n\n\nclass DecFileNotParsed(RuntimeError):")],
     },
 }
+
+MUTANTS.update({
+    # ------------------------------------------------------------------ C15
+    "c15_edge_label_from_previous_line": {
+        "prop": "C15", "expect": "caught", "opts": {"sessions": 300},
+        "why": "edge label taken from the previous sibling line for tables with four or more lines",
+        "edits": [(VIEW, """                    _bf = subchain[idm]["bf"]
+""", """                    _bf = subchain[idm - 1 if (n_decaymodes >= 4 and idm) else idm]["bf"]
+""")],
+    },
+    "c15_leaf_cells_sorted": {
+        "prop": "C15", "expect": "caught", "opts": {"sessions": 300},
+        "why": "daughters shown in leaf nodes are sorted",
+        "edits": [(VIEW, """            label = html_table_label(list_parts, bgcolor="#eef3f8")
+""", """            label = html_table_label(sorted(list_parts), bgcolor="#eef3f8")
+""")],
+    },
+    "c15_counter_reset_per_viewer": {
+        "prop": "C15", "expect": "caught", "opts": {"sessions": 300},
+        "why": "node counter restarts for every viewer: ids repeat across graphs of a session",
+        "edits": [(VIEW, """        # Build the actual graph from the input decay chain structure
+        self._build_decay_graph()
+""", """        # Build the actual graph from the input decay chain structure
+        global counter
+        counter = iter(itertools.count())
+        self._build_decay_graph()
+""")],
+    },
+    "c15_counter_reset_on_failure": {
+        "prop": "C15", "expect": "caught", "opts": {"sessions": 600},
+        "why": "a construction that fails part-way rewinds the counter to zero: later graphs reuse ids of earlier ones",
+        "edits": [(VIEW, """        # Build the actual graph from the input decay chain structure
+        self._build_decay_graph()
+""", """        # Build the actual graph from the input decay chain structure
+        global counter
+        try:
+            self._build_decay_graph()
+        except Exception:
+            counter = iter(itertools.count())
+            raise
+""")],
+    },
+    "c15_tail_port_from_line_index": {
+        "prop": "C15", "expect": "caught", "opts": {"sessions": 300},
+        "why": "sub-decay edges leave the port numbered like the decay line instead of the daughter's slot",
+        "edits": [(VIEW, """                            iterate_chain(_p[_k], top_node=_ref_1, link_pos=i)
+""", """                            iterate_chain(_p[_k], top_node=_ref_1, link_pos=min(idm, len(_list_parts) - 1))
+""")],
+    },
+    "c15_second_identical_daughter_not_expanded": {
+        "prop": "C15", "expect": "caught", "opts": {"sessions": 300},
+        "why": "only the first of two identical decaying daughters gets its sub-graph",
+        "edits": [(VIEW, """                    for i, _p in enumerate(_list_parts):  # type: ignore[arg-type]
+                        if not isinstance(_p, str):
+                            _k = next(iter(_p.keys()))
+""", """                    _done = set()
+                    for i, _p in enumerate(_list_parts):  # type: ignore[arg-type]
+                        if not isinstance(_p, str):
+                            _k = next(iter(_p.keys()))
+                            if _k in _done:
+                                continue
+                            _done.add(_k)
+""")],
+    },
+    "c15_empty_row_regression": {
+        "prop": "C15", "expect": "caught", "opts": {"sessions": 300},
+        "why": "reverts the repair of F15",
+        "edits": [(VIEW, "            for i, n in enumerate(names or [\"\"]):", "            for i, n in enumerate(names):")],
+    },
+    "c15_refactor_uuid_ids": {
+        "prop": "C15", "expect": "pass", "opts": {"sessions": 300},
+        "why": "behaviour-preserving: node ids from uuid4 instead of a counter",
+        "edits": [(VIEW, "import itertools\n", "import itertools\nimport uuid\n"),
+                  (VIEW, """            label = html_table_label(list_parts, bgcolor="#eef3f8")
+            r = f"dec{next(counter)}\"""", """            label = html_table_label(list_parts, bgcolor="#eef3f8")
+            r = f"n{uuid.uuid4().hex}\""""),
+                  (VIEW, """            label = html_table_label(_list_parts, add_tags=True)
+            r = f"dec{next(counter)}\"""", """            label = html_table_label(_list_parts, add_tags=True)
+            r = f"n{uuid.uuid4().hex}\"""")],
+    },
+})
